@@ -289,6 +289,8 @@ def run_history(case, alphabet, check_mirror):
     depth, dflt, n = case["d"], case["dflt"], case["n"]
     if case.get("fdflt"):
         dflt = float(dflt)      # the same default as a float: other copy / boxing paths in the library
+    if case.get("ndflt"):
+        dflt = None             # "no empty value": insertions of a default are REJECTED and must leave no trace
     rng = random.Random(case["hseed"])
     cfg = case.get("cfg") or {}
     owned = case["kind"] == "owned"
@@ -304,6 +306,10 @@ def run_history(case, alphabet, check_mirror):
     structural = case.get("mode") == "structural"
     if structural:
         alphabet = [k for k in alphabet if k in STRUCTURAL] or STRUCTURAL
+    if case.get("ndflt"):
+        # without an empty value only operations that never WRITE the default are meaningful
+        alphabet = [k for k in alphabet if k in ("ref", "posref", "refsp", "append", "extend", "setitem", "clear",
+                                                 "updcoords", "denseref", "get", "query")] or ["ref"]
     for _ in range(case["len"]):
         op = gen_op(rng, root, depth, case["dflt"], n, alphabet, structural)
         before = H.snapshot(root)
